@@ -19,7 +19,7 @@ MetaV  == {"nil", "empty", "full"}
 NlV    == {"nil", "empty", "nodes"}
 RootsV == {"none", "one", "many", "dangling", "dup", "emptyid"}
 NodesV == {"plain", "nilnode", "dupid", "emptyid", "badenum", "rich"}
-EdgesV == {"none", "tree", "cycle", "dangling", "niledge", "dupedge", "emptyto", "selfloop"}
+EdgesV == {"none", "tree", "cycle", "cycle-tail", "deps-cycle", "dag", "dangling", "niledge", "dupedge", "emptyto", "selfloop"}
 DtV    == {"none", "typed", "nilall", "other-nilname", "other-named", "runtime", "badenum"}
 ExtraV == {"none", "nilperson", "nilextref", "niltool", "nilauthor", "nildoctype"}
 Shapes == [meta : MetaV, nl : NlV, roots : RootsV, nodes : NodesV, edges : EdgesV, dt : DtV, extra : ExtraV]
@@ -30,7 +30,9 @@ Outcomes == {"ok", "err", "panic", "exit", "hang", "both", "neither"}
 Allowed(o) == o \in {"ok", "err"}
 
 \* JSON fault model
-FaultKinds == {"null", "string", "number", "bool", "array", "object", "empty", "absent", "duplicated", "oversized"}
+FaultKinds == {"null", "string", "number", "bool", "array", "object", "empty", "absent", "duplicated", "oversized",
+               \* boundary values of structured strings ("Type: name", SPDX special values)
+               "cut-after-colon", "whitespace", "noassertion"}
 
 CONSTANTS Export      \* "shapes" | "faults" | "none"
 \* every JSON path of the representative documents, listed by the harness ("document#/path")
